@@ -1,5 +1,5 @@
 import Firebolt.Skeleton
-/-! Reviewed copy of Generated/Source.lean: the function bodies the op-sequence and decision models were transcribed from. Refresh only together with the models. -/
+/-! Reviewed copy of Generated/Source.lean: the function bodies the op-sequence and decision models were transcribed from, and the functions their assumptions rest on. Refresh only together with the models. -/
 namespace Firebolt.ExpectedSrc
 open Firebolt.Skeleton
 
@@ -1012,6 +1012,434 @@ def hFloat64ConfigRequired : List Instr := [
   ⟨0, "if", "f64Value > maxValue || f64Value < minValue"⟩,
   ⟨1, "return", "0, fmt.Errorf(\"config value [%s] requires value between [%f] and [%f]\", name, minValue, maxValue)"⟩,
   ⟨0, "return", "f64Value, nil"⟩
+]
+
+def getNodeType : List Instr := [
+  ⟨0, "func", "func(node Node) nodeType"⟩,
+  ⟨0, "assign", "_, isSync := node.(SyncNode)"⟩,
+  ⟨0, "if", "isSync"⟩,
+  ⟨1, "return", "Sync"⟩,
+  ⟨0, "assign", "_, isAsync := node.(AsyncNode)"⟩,
+  ⟨0, "if", "isAsync"⟩,
+  ⟨1, "return", "Async"⟩,
+  ⟨0, "assign", "_, isFanout := node.(FanoutNode)"⟩,
+  ⟨0, "if", "isFanout"⟩,
+  ⟨1, "return", "Fanout"⟩,
+  ⟨0, "return", "Unknown"⟩
+]
+
+def invokeProcessorSync : List Instr := [
+  ⟨0, "func", "func(event *firebolt.Event) (*firebolt.Event, error)"⟩,
+  ⟨0, "assign", "start := time.Now()"⟩,
+  ⟨0, "assign", "syncNode, ok := nc.NodeProcessor.(SyncNode)"⟩,
+  ⟨0, "if", "!ok"⟩,
+  ⟨1, "stmt", "panic(\"node: sync invocation failed to convert target to SyncNode\")"⟩,
+  ⟨0, "assign", "result, err := syncNode.Process(event)"⟩,
+  ⟨0, "stmt", "metrics.Node().ProcessTime.WithLabelValues(nc.Config.ID).Observe(time.Since(start).Seconds())"⟩,
+  ⟨0, "return", "result, err"⟩
+]
+
+def invokeProcessorFanout : List Instr := [
+  ⟨0, "func", "func(event *firebolt.Event) ([]firebolt.Event, error)"⟩,
+  ⟨0, "assign", "start := time.Now()"⟩,
+  ⟨0, "assign", "fanoutNode, ok := nc.NodeProcessor.(FanoutNode)"⟩,
+  ⟨0, "if", "!ok"⟩,
+  ⟨1, "stmt", "panic(\"node: sync invocation failed to convert target to FanoutNode\")"⟩,
+  ⟨0, "assign", "result, err := fanoutNode.Process(event)"⟩,
+  ⟨0, "stmt", "metrics.Node().ProcessTime.WithLabelValues(nc.Config.ID).Observe(time.Since(start).Seconds())"⟩,
+  ⟨0, "return", "result, err"⟩
+]
+
+def newAsyncEvent : List Instr := [
+  ⟨0, "func", "func(event *Event, errFunc func(error), eventFunc func(*AsyncEvent), filterFunc func()) *AsyncEvent"⟩,
+  ⟨0, "return", "&AsyncEvent{ Event: event, ReturnError: errFunc, ReturnEvent: eventFunc, ReturnFiltered: filterFunc, }"⟩
+]
+
+def instantiateNode : List Instr := [
+  ⟨0, "func", "func(nodeType string) Node"⟩,
+  ⟨0, "assign", "registration := r.nodeTypes[nodeType]"⟩,
+  ⟨0, "if", "registration == nil"⟩,
+  ⟨1, "stmt", "panic(\"no node registered for type\")"⟩,
+  ⟨0, "return", "registration.factory()"⟩
+]
+
+def instantiateSource : List Instr := [
+  ⟨0, "func", "func(sourceType string) Source"⟩,
+  ⟨0, "assign", "registration := r.sourceTypes[sourceType]"⟩,
+  ⟨0, "if", "registration == nil"⟩,
+  ⟨1, "stmt", "panic(\"no source registered for type\")"⟩,
+  ⟨0, "return", "registration.factory()"⟩
+]
+
+def withConfig : List Instr := [
+  ⟨0, "func", "func(c config.Config) Opt"⟩,
+  ⟨0, "decl", "var roots []*node.Context"⟩,
+  ⟨0, "range", "c.Nodes"⟩,
+  ⟨1, "assign", "nodeContext := node.InitNodeContextHierarchy(rootNodeConfig)"⟩,
+  ⟨1, "if", "nodeContext != nil"⟩,
+  ⟨2, "assign", "roots = append(roots, nodeContext)"⟩,
+  ⟨0, "stmt", "metrics.Init(c.MetricsPrefix)"⟩,
+  ⟨0, "if", "c.MetricsPort != 0"⟩,
+  ⟨1, "go", "func() { err := metrics.StartServer(context.Background(), c.MetricsPort) if err != nil { log.WithError(err).Error(\"executor: failed to start metrics http server\") } }()"⟩,
+  ⟨0, "return", "func(e *Executor) (*Executor, error) { newE := &Executor{ config: c, rootNodes: roots, sigCh: make(chan os.Signal, 1), sourceCh: make(chan firebolt.Event), source: e.source, instanceID: util.BuildInstanceID(), } signal.Notify(newE.sigCh, syscall.SIGINT, syscall.SIGTERM) newE.fbContext = fbcontext.NewFBContext(func() string { return newE.instanceID }) if c.Zookeeper != \"\" { newE.leader = leader.NewLeader(newE.instanceID, c.Zookeeper, c.ZkElectionPath) newE.fbContext.ConfigureLeader(func() bool { return newE.leader.IsLeader() }) } err := newE.InitMessaging(c) if err != nil { return nil, err } newE.prepareSource() for _, rootNode := range newE.rootNodes { newE.setupNodes(rootNode) } newE.StartMessaging() return newE, nil }"⟩
+]
+
+def exNew : List Instr := [
+  ⟨0, "func", "func(opts ...Opt) (*Executor, error)"⟩,
+  ⟨0, "decl", "var ( e = &Executor{} err error )"⟩,
+  ⟨0, "range", "opts"⟩,
+  ⟨1, "assign", "e, err = opt(e)"⟩,
+  ⟨1, "if", "err != nil"⟩,
+  ⟨2, "return", "nil, err"⟩,
+  ⟨0, "return", "e, nil"⟩
+]
+
+def exSendMessage : List Instr := [
+  ⟨0, "func", "func(msg message.Message) error"⟩,
+  ⟨0, "return", "message.GetSender().Send(msg)"⟩
+]
+
+def exFindNodeByID : List Instr := [
+  ⟨0, "func", "func(id string) *node.Context"⟩,
+  ⟨0, "range", "e.rootNodes"⟩,
+  ⟨1, "assign", "match := findMatchingNode(rootNode, id)"⟩,
+  ⟨1, "if", "match != nil"⟩,
+  ⟨2, "return", "match"⟩,
+  ⟨0, "return", "nil"⟩
+]
+
+def exFindMatchingNode : List Instr := [
+  ⟨0, "func", "func(node *node.Context, id string) *node.Context"⟩,
+  ⟨0, "if", "node.Config.ID == id"⟩,
+  ⟨1, "return", "node"⟩,
+  ⟨0, "range", "node.Children"⟩,
+  ⟨1, "assign", "match := findMatchingNode(child, id)"⟩,
+  ⟨1, "if", "match != nil"⟩,
+  ⟨2, "return", "match"⟩,
+  ⟨0, "return", "nil"⟩
+]
+
+def exGetSource : List Instr := [
+  ⟨0, "func", "func() *node.Source"⟩,
+  ⟨0, "return", "&e.source"⟩
+]
+
+def exInitMessaging : List Instr := [
+  ⟨0, "func", "func(c config.Config) error"⟩,
+  ⟨0, "if", "c.InternalData != nil && c.InternalData.Transport == config.InternalDataTransportKafka"⟩,
+  ⟨1, "return", "e.initMessagingKafka(c)"⟩,
+  ⟨0, "assign", "e.messageReceiver = &NoOpMessageReceiver{}"⟩,
+  ⟨0, "return", "nil"⟩
+]
+
+def exStartMessaging : List Instr := [
+  ⟨0, "func", "func()"⟩,
+  ⟨0, "stmt", "e.messageReceiver.Start()"⟩,
+  ⟨0, "assign", "deadline := time.Now().Add(60 * time.Second)"⟩,
+  ⟨0, "for", ""⟩,
+  ⟨1, "if", "e.messageReceiver.Initialized()"⟩,
+  ⟨2, "break", ""⟩,
+  ⟨1, "if", "time.Now().After(deadline)"⟩,
+  ⟨2, "break", ""⟩,
+  ⟨1, "stmt", "time.Sleep(300 * time.Millisecond)"⟩
+]
+
+def exInitMessagingKafka : List Instr := [
+  ⟨0, "func", "func(c config.Config) error"⟩,
+  ⟨0, "stmt", "message.InitKafkaSender(*c.InternalData)"⟩,
+  ⟨0, "assign", "receiver, err := message.NewKafkaReceiver(c.InternalData)"⟩,
+  ⟨0, "if", "err != nil"⟩,
+  ⟨1, "return", "fmt.Errorf(\"executor: failed to initialize message receiver %s\", c.InternalData.Transport)"⟩,
+  ⟨0, "stmt", "receiver.SetNotificationFunc(func(msg message.Message) []error { return e.deliverMessage(msg) })"⟩,
+  ⟨0, "assign", "e.messageReceiver = receiver"⟩,
+  ⟨0, "stmt", "e.fbContext.ConfigureMessaging(sendMessage, ackMessage)"⟩,
+  ⟨0, "return", "nil"⟩
+]
+
+def exNewMessage : List Instr := [
+  ⟨0, "func", "func(msg fbcontext.Message) message.Message"⟩,
+  ⟨0, "return", "message.Message{ MessageType: msg.MessageType, Key: msg.Key, Payload: msg.Payload, }"⟩
+]
+
+def exSendMessageFn : List Instr := [
+  ⟨0, "func", "func(msg fbcontext.Message) error"⟩,
+  ⟨0, "return", "message.GetSender().Send(newMessage(msg))"⟩
+]
+
+def exAckMessageFn : List Instr := [
+  ⟨0, "func", "func(msg fbcontext.Message) error"⟩,
+  ⟨0, "return", "message.GetSender().Ack(newMessage(msg))"⟩
+]
+
+def msgInitKafkaSender : List Instr := [
+  ⟨0, "func", "func(config config.InternalDataConfig)"⟩,
+  ⟨0, "stmt", "senderLock.Lock()"⟩,
+  ⟨0, "defer", "senderLock.Unlock()"⟩,
+  ⟨0, "assign", "senderSingleton = NewKafkaMessageSender(&config)"⟩
+]
+
+def msgShutdownKafkaSender : List Instr := [
+  ⟨0, "func", "func()"⟩,
+  ⟨0, "stmt", "senderLock.Lock()"⟩,
+  ⟨0, "defer", "senderLock.Unlock()"⟩,
+  ⟨0, "if", "senderSingleton != nil"⟩,
+  ⟨1, "stmt", "senderSingleton.Shutdown()"⟩,
+  ⟨1, "assign", "senderSingleton = nil"⟩
+]
+
+def msgGetSender : List Instr := [
+  ⟨0, "func", "func() Sender"⟩,
+  ⟨0, "if", "senderSingleton == nil"⟩,
+  ⟨0, "return", "senderSingleton"⟩
+]
+
+def newKafkaMessageSender : List Instr := [
+  ⟨0, "func", "func(config *config.InternalDataConfig) Sender"⟩,
+  ⟨0, "assign", "kp := &kafkaproducer.KafkaProducer{}"⟩,
+  ⟨0, "assign", "producerConfig := make(map[string]string)"⟩,
+  ⟨0, "assign", "producerConfig[\"brokers\"] = config.Params[\"brokers\"]"⟩,
+  ⟨0, "assign", "producerConfig[\"topic\"] = config.Params[\"messagetopic\"]"⟩,
+  ⟨0, "assign", "err := kp.Setup(producerConfig)"⟩,
+  ⟨0, "if", "err != nil"⟩,
+  ⟨0, "return", "KafkaMessageSender{ producer: kp, topic: config.Params[\"messagetopic\"], }"⟩
+]
+
+def msShutdown : List Instr := [
+  ⟨0, "func", "func()"⟩,
+  ⟨0, "assign", "err := s.producer.Shutdown()"⟩,
+  ⟨0, "if", "err != nil"⟩
+]
+
+def newKafkaReceiver : List Instr := [
+  ⟨0, "func", "func(config *config.InternalDataConfig) (Receiver, error)"⟩,
+  ⟨0, "assign", "r := &KafkaMessageReceiver{ topic: config.Params[\"messagetopic\"], initMutex: sync.RWMutex{}, initBuffer: make(map[string]*wireMessage), }"⟩,
+  ⟨0, "assign", "consumerConfigMap, err := r.buildConfigMap(config.Params)"⟩,
+  ⟨0, "if", "err != nil"⟩,
+  ⟨1, "return", "nil, err"⟩,
+  ⟨0, "assign", "kc, err := kafka.NewConsumer(consumerConfigMap)"⟩,
+  ⟨0, "if", "err != nil"⟩,
+  ⟨1, "return", "nil, err"⟩,
+  ⟨0, "assign", "r.consumer = kc"⟩,
+  ⟨0, "return", "r, nil"⟩
+]
+
+def mrStart : List Instr := [
+  ⟨0, "func", "func()"⟩,
+  ⟨0, "go", "r.handleEvents()"⟩
+]
+
+def mrInitialized : List Instr := [
+  ⟨0, "func", "func() bool"⟩,
+  ⟨0, "stmt", "r.initMutex.RLock()"⟩,
+  ⟨0, "defer", "r.initMutex.RUnlock()"⟩,
+  ⟨0, "return", "r.initialized"⟩
+]
+
+def mrSetNotificationFunc : List Instr := [
+  ⟨0, "func", "func(notifier NotificationFunc)"⟩,
+  ⟨0, "assign", "r.notifier = notifier"⟩
+]
+
+def mrShutdown : List Instr := [
+  ⟨0, "func", "func()"⟩,
+  ⟨0, "assign", "err := r.consumer.Close()"⟩,
+  ⟨0, "if", "err != nil"⟩
+]
+
+def ctxInit : List Instr := [
+  ⟨0, "func", "func(id string, ctx FBContext)"⟩,
+  ⟨0, "assign", "c.ID = id"⟩,
+  ⟨0, "assign", "c.Ctx = ctx"⟩
+]
+
+def ctxSendMessage : List Instr := [
+  ⟨0, "func", "func(msg Message) error"⟩,
+  ⟨0, "return", "c.sendFunc(msg)"⟩
+]
+
+def ctxAckMessage : List Instr := [
+  ⟨0, "func", "func(msg Message) error"⟩,
+  ⟨0, "return", "c.ackFunc(msg)"⟩
+]
+
+def ctxConfigureMessaging : List Instr := [
+  ⟨0, "func", "func(send MessageFunc, ack MessageFunc)"⟩,
+  ⟨0, "assign", "c.sendFunc = send"⟩,
+  ⟨0, "assign", "c.ackFunc = ack"⟩
+]
+
+def esSetup : List Instr := [
+  ⟨0, "func", "func(cfgMap map[string]string) error"⟩,
+  ⟨0, "assign", "ctx, done := context.WithCancel(context.Background())"⟩,
+  ⟨0, "assign", "i.done = done"⟩,
+  ⟨0, "assign", "config := firebolt.Nodeconfig(cfgMap)"⟩,
+  ⟨0, "assign", "esURL, err := config.StringConfigRequired(\"elastic-addr\")"⟩,
+  ⟨0, "if", "err != nil"⟩,
+  ⟨1, "return", "err"⟩,
+  ⟨0, "assign", "esUsername, err := config.StringConfig(\"elastic-username\", \"\")"⟩,
+  ⟨0, "if", "err != nil"⟩,
+  ⟨1, "return", "err"⟩,
+  ⟨0, "assign", "esPassword, err := config.StringConfig(\"elastic-password\", \"\")"⟩,
+  ⟨0, "if", "err != nil"⟩,
+  ⟨1, "return", "err"⟩,
+  ⟨0, "assign", "batchSize, err := config.IntConfig(\"batch-size\", 100, 1, math.MaxInt32)"⟩,
+  ⟨0, "if", "err != nil"⟩,
+  ⟨1, "return", "err"⟩,
+  ⟨0, "assign", "batchMaxWaitMs, err := config.IntConfig(\"batch-max-wait-ms\", 1000, 1, math.MaxInt32)"⟩,
+  ⟨0, "if", "err != nil"⟩,
+  ⟨1, "return", "err"⟩,
+  ⟨0, "assign", "bulkIndexTimeoutMs, err := config.IntConfig(\"bulk-index-timeout-ms\", 5000, 1, math.MaxInt32)"⟩,
+  ⟨0, "if", "err != nil"⟩,
+  ⟨1, "return", "err"⟩,
+  ⟨0, "assign", "reconnectBatchCount, err := config.IntConfig(\"reconnect-batch-count\", 10000, 1, math.MaxInt32)"⟩,
+  ⟨0, "if", "err != nil"⟩,
+  ⟨1, "return", "err"⟩,
+  ⟨0, "assign", "bulkIndexMaxRetries, err := config.IntConfig(\"bulk-index-max-retries\", 3, 1, math.MaxInt32)"⟩,
+  ⟨0, "if", "err != nil"⟩,
+  ⟨1, "return", "err"⟩,
+  ⟨0, "assign", "bulkIndexTimeoutSeconds, err := config.IntConfig(\"bulk-index-timeout-seconds\", 20, 1, math.MaxInt32)"⟩,
+  ⟨0, "if", "err != nil"⟩,
+  ⟨1, "return", "err"⟩,
+  ⟨0, "assign", "indexWorkers, err := config.IntConfig(\"index-workers\", 1, 1, math.MaxInt32)"⟩,
+  ⟨0, "if", "err != nil"⟩,
+  ⟨1, "return", "err"⟩,
+  ⟨0, "assign", "bulkProcessHistogramMin, err := config.Float64Config(\"histogram-min-bucket-sec\", 0.01, 0.01, math.MaxFloat64)"⟩,
+  ⟨0, "if", "err != nil"⟩,
+  ⟨1, "return", "err"⟩,
+  ⟨0, "assign", "bulkProcessHistogramMax, err := config.Float64Config(\"histogram-max-bucket-sec\", float64(2*(bulkIndexTimeoutMs/1000)), 0.01, math.MaxFloat64)"⟩,
+  ⟨0, "if", "err != nil"⟩,
+  ⟨1, "return", "err"⟩,
+  ⟨0, "assign", "bulkProcessingHistogramBuckets, err := config.IntConfig(\"histogram-bucket-count\", 8, 1, math.MaxInt)"⟩,
+  ⟨0, "if", "err != nil"⟩,
+  ⟨1, "return", "err"⟩,
+  ⟨0, "assign", "metrics := &Metrics{}"⟩,
+  ⟨0, "stmt", "metrics.RegisterElasticIndexMetrics(bulkProcessHistogramMin, bulkProcessHistogramMax, bulkProcessingHistogramBuckets)"⟩,
+  ⟨0, "if", "i.serviceFactory == nil"⟩,
+  ⟨1, "assign", "i.serviceFactory = newEsBulkServiceFactory(ctx, esURL, esUsername, esPassword, reconnectBatchCount, bulkIndexTimeoutMs, metrics)"⟩,
+  ⟨0, "assign", "i.indexClient = NewElasticIndexClient( i.serviceFactory, metrics, batchSize, bulkIndexMaxRetries, bulkIndexTimeoutSeconds, indexWorkers, time.Duration(batchMaxWaitMs)*time.Millisecond)"⟩,
+  ⟨0, "go", "i.indexClient.Run(ctx)"⟩,
+  ⟨0, "return", "nil"⟩
+]
+
+def newElasticIndexClient : List Instr := [
+  ⟨0, "func", "func( connectionFactory bulkServiceFactory, metrics *Metrics, batchSize, maxRetries, timeoutSeconds, workerPool int, batchMaxWait time.Duration) *ElasticIndexClient"⟩,
+  ⟨0, "assign", "c := &ElasticIndexClient{ connectionFactory: connectionFactory, metrics: metrics, batchSize: batchSize, batchMaxWait: batchMaxWait, maxRetries: maxRetries, timeoutSeconds: timeoutSeconds, pool: make(chan int, workerPool), indexChan: make(chan *eventIndexRequest), }"⟩,
+  ⟨0, "for", "i := 0; i < workerPool; i++"⟩,
+  ⟨1, "send", "c.pool <- 1"⟩,
+  ⟨0, "return", "c"⟩
+]
+
+def kpSetup : List Instr := [
+  ⟨0, "func", "func(config map[string]string) error"⟩,
+  ⟨0, "assign", "configMap, err := k.buildConfigMap(config)"⟩,
+  ⟨0, "if", "err != nil"⟩,
+  ⟨1, "return", "err"⟩,
+  ⟨0, "assign", "p, err := kafka.NewProducer(configMap)"⟩,
+  ⟨0, "if", "err != nil"⟩,
+  ⟨1, "return", "err"⟩,
+  ⟨0, "assign", "k.producer = p"⟩,
+  ⟨0, "assign", "k.topic = config[\"topic\"]"⟩,
+  ⟨0, "assign", "k.stopChan = make(chan bool)"⟩,
+  ⟨0, "go", "k.startEventsReceiver()"⟩,
+  ⟨0, "return", "nil"⟩
+]
+
+def kpShutdown : List Instr := [
+  ⟨0, "func", "func() error"⟩,
+  ⟨0, "stmt", "k.stop()"⟩,
+  ⟨0, "return", "nil"⟩
+]
+
+def kpStartEventsReceiver : List Instr := [
+  ⟨0, "func", "func()"⟩,
+  ⟨0, "range", "k.producer.Events()"⟩,
+  ⟨1, "typeswitch", "ev := e.(type)"⟩,
+  ⟨2, "case", "*kafka.Message"⟩,
+  ⟨3, "if", "ev.TopicPartition.Error != nil"⟩,
+  ⟨3, "else", ""⟩,
+  ⟨2, "case", "*kafka.Stats"⟩,
+  ⟨2, "default", ""⟩
+]
+
+def kpStop : List Instr := [
+  ⟨0, "func", "func()"⟩,
+  ⟨0, "stmt", "k.producer.Flush(5000)"⟩,
+  ⟨0, "stmt", "k.producer.Close()"⟩
+]
+
+def kcSetup : List Instr := [
+  ⟨0, "func", "func(config map[string]string, eventchan chan firebolt.Event) error"⟩,
+  ⟨0, "assign", "err := k.checkConfig(config)"⟩,
+  ⟨0, "if", "err != nil"⟩,
+  ⟨1, "return", "err"⟩,
+  ⟨0, "assign", "maxInitialPartitionLag, err := strconv.Atoi(config[\"maxpartitionlag\"])"⟩,
+  ⟨0, "if", "err != nil"⟩,
+  ⟨1, "return", "err"⟩,
+  ⟨0, "assign", "k.maxInitialPartitionLag = maxInitialPartitionLag"⟩,
+  ⟨0, "if", "config[\"parallelrecoveryenabled\"] == \"\""⟩,
+  ⟨1, "assign", "config[\"parallelrecoveryenabled\"] = \"false\""⟩,
+  ⟨0, "assign", "k.recoveryConsumerEnabled, _ = strconv.ParseBool(config[\"parallelrecoveryenabled\"])"⟩,
+  ⟨0, "assign", "configMap, err := k.buildConfigMap(config)"⟩,
+  ⟨0, "if", "err != nil"⟩,
+  ⟨1, "return", "err"⟩,
+  ⟨0, "stmt", "k.Subscribe([]string{messageTypeRecoveryRequest, messageTypeCancelRecovery})"⟩,
+  ⟨0, "assign", "c, err := kafka.NewConsumer(configMap)"⟩,
+  ⟨0, "if", "err != nil"⟩,
+  ⟨1, "return", "err"⟩,
+  ⟨0, "assign", "k.consumer = c"⟩,
+  ⟨0, "assign", "k.topic = config[\"topic\"]"⟩,
+  ⟨0, "assign", "k.sendCh = eventchan"⟩,
+  ⟨0, "assign", "k.doneCh = make(chan struct{}, 1)"⟩,
+  ⟨0, "assign", "k.assignPartitionsMutex = sync.Mutex{}"⟩,
+  ⟨0, "assign", "k.assignPartitionsCtx, k.assignPartitionsCancel = context.WithCancel(context.Background())"⟩,
+  ⟨0, "assign", "k.metrics = &Metrics{}"⟩,
+  ⟨0, "stmt", "k.metrics.RegisterConsumerMetrics()"⟩,
+  ⟨0, "if", "k.recoveryConsumerEnabled"⟩,
+  ⟨1, "assign", "k.recoveryConsumer, err = NewRecoveryConsumer(k.topic, k.sendCh, config, k.metrics, k.Ctx)"⟩,
+  ⟨1, "if", "err != nil"⟩,
+  ⟨2, "return", "err"⟩,
+  ⟨0, "return", "nil"⟩
+]
+
+def kcStart : List Instr := [
+  ⟨0, "func", "func() error"⟩,
+  ⟨0, "assign", "err := k.consumer.Subscribe(k.topic, nil)"⟩,
+  ⟨0, "if", "err != nil"⟩,
+  ⟨1, "return", "err"⟩,
+  ⟨0, "for", ""⟩,
+  ⟨1, "select", ""⟩,
+  ⟨2, "case-recv:=", "k.consumer.Events()"⟩,
+  ⟨3, "if", "event == nil"⟩,
+  ⟨4, "return", "nil"⟩,
+  ⟨3, "stmt", "k.processEvent(event)"⟩,
+  ⟨2, "case-recv", "k.doneCh"⟩,
+  ⟨3, "if", "k.recoveryConsumerEnabled"⟩,
+  ⟨4, "stmt", "k.recoveryConsumer.Shutdown()"⟩,
+  ⟨3, "return", "nil"⟩
+]
+
+def kcShutdown : List Instr := [
+  ⟨0, "func", "func() error"⟩,
+  ⟨0, "send", "k.doneCh <- struct{}{}"⟩,
+  ⟨0, "stmt", "k.assignPartitionsCancel()"⟩,
+  ⟨0, "assign", "err := k.consumer.Close()"⟩,
+  ⟨0, "if", "err != nil"⟩,
+  ⟨0, "return", "nil"⟩
+]
+
+def newRecoveryTracker : List Instr := [
+  ⟨0, "func", "func(metrics *Metrics, ctx fbcontext.FBContext) (*RecoveryTracker, error)"⟩,
+  ⟨0, "assign", "r := &RecoveryTracker{ recoveryRequests: make(map[int32]*RecoveryRequests), metrics: metrics, ctx: ctx, }"⟩,
+  ⟨0, "return", "r, nil"⟩
+]
+
+def rcShutdown : List Instr := [
+  ⟨0, "func", "func()"⟩,
+  ⟨0, "stmt", "rc.refreshTicker.Stop()"⟩,
+  ⟨0, "send", "rc.doneCh <- struct{}{}"⟩,
+  ⟨0, "assign", "err := rc.consumer.Close()"⟩,
+  ⟨0, "if", "err != nil"⟩,
+  ⟨0, "stmt", "rc.tracker.Shutdown()"⟩
 ]
 
 end Firebolt.ExpectedSrc
